@@ -224,3 +224,9 @@ def run(ctx):
             ctx.ob(bool(inline_), '%s calls the listener inline' % short(v_.path, 3), 'listener-order|inline|' + short(v_.path, 3), loc=v_.loc(), rule='R-C05-5')
     if ctx.config == 'all':
         ctx.floor(nsp, 2, 'listener hand-off closures (one per driver)')
+    # ---- added after defect 19 (side note of the sub-agent of C05-4): a PUBLISH completely received in front of a malformed packet in the
+    # same socket read is handled (surfaced, answered) before the decode failure is reported - as it would be had it arrived in a read of its own
+    derr_ = [b_ for b_, e_ in prims.ret_variants(hid_) if show(e_).startswith('Decoder::decode_bytes(') or (e_[0] == 'agg' and e_[2] == 'Err' and guarded_any(hid_, b_, [r'^Decoder::decode_bytes\(.*\) is Err$']) and not guarded_any(hid_, b_, [r'^Iterator::next\(iter\) is Some$']))]
+    loop_exit_ = [r'^Iterator::next\(iter\) is None$']
+    ctx.ob(len(it_) == 1 and bool(derr_) and all(hid_.dominates(it_[0].bb, b_) and guarded_any(hid_, b_, loop_exit_) for b_ in derr_),
+           'a decode failure is reported only after every packet decoded in front of it has been handled (the failing return lies behind the packet loop)', 'decode-failure-after-packets', loc=hid_.loc(), rule='R-C05-1')
